@@ -91,6 +91,10 @@ def _definitely(body, d, label):
     return False
 
 
+def _captured_local(body, l, idx, depth=0):
+    return core._captured_operand_local(body, l, idx, depth)
+
+
 def _carriers(body, dest, label, call_block):
     """{local: merged} — locals that hold the call's result: copies of `dest`, and merge points whose other definitions are certainly
     the opposite variant (exact: `label` there implies the call returned it) or certainly `label` itself (merged: `label` there means
@@ -126,19 +130,27 @@ def _carriers(body, dest, label, call_block):
                 continue
             from_call = []
             others = []
+            srcs_ = []
             for d in whole:
                 src = None
                 if d[2] == "assign" and d[3]["rv"]["k"] == "use":
                     pl = core.op_place(d[3]["rv"]["o"])
                     if pl is not None and not pl["p"]:
                         src = pl["l"]
-                (from_call if src in out else others).append(d)
+                    elif pl is not None and len(pl["p"]) == 1 and pl["p"][0][0] == "f":
+                        # a value captured by an inlined closure / awaited async helper: (closure.i) is the i-th captured operand
+                        src = _captured_local(body, pl["l"], pl["p"][0][1])
+                if src in out:
+                    from_call.append(d)
+                    srcs_.append(src)
+                else:
+                    others.append(d)
             if not from_call:
                 continue
             m = others_ok(others)
             if m is None:
                 continue
-            out[l] = m or any(out[core.op_place(d[3]["rv"]["o"])["l"]] for d in from_call)
+            out[l] = m or any(out[x] for x in srcs_)
             changed = True
     return out
 
@@ -475,9 +487,30 @@ def analyse_loop(chk, prog, cfg, b, facts):
 
 
 def _is_request_headers(prog, b, op):
-    l = core.op_local(op)
+    """the Headers value is a field of the parsed request (not of a response that was merely computed from the request)"""
     d = describe(prog, b, op)
-    return desc_contains(d, lambda x: x[0] == "call" and ("Request::from_stream" in x[1])) and not desc_contains(d, lambda x: x[0] == "multi" and x[2] == "response")
+    if desc_contains(d, lambda x: x[0] == "multi" and x[2] == "response"):
+        return False
+    # walk from the Headers value down to what it is a field of, through reference / unwrapping wrappers only
+    x = d
+    for _ in range(12):
+        if not isinstance(x, tuple) or not x:
+            return False
+        if x[0] == "field":
+            x = x[1]
+            continue
+        if x[0] == "call":
+            if "Request::from_stream" in x[1]:
+                return True
+            if core.re.search(r"(::|>::)(as_ref|as_mut|deref|deref_mut|borrow|borrow_mut|unwrap|expect|branch|clone|as_deref)$", x[1]) and x[2]:
+                x = x[2][0]
+                continue
+            return False
+        if x[0] in ("ref", "deref", "cast") and len(x) > 1:
+            x = x[1]
+            continue
+        return False
+    return False
 
 
 def _under_options(prog, b, blk):
